@@ -1,3 +1,488 @@
-fn main() {
-    vcore::inconclusive("memo_programs: not built yet");
+//! C04 — distinct memoized functions never share cached results.
+//!
+//! Part 1 (generated programs): `generated.rs` (written by `memo_gen` from the seed before the
+//! build, see `check`) holds programs of 30-60 modules x 2-4 `#[memo]` functions whose signatures
+//! textually recur in different modules. Every body returns a constant unique to (module,
+//! function) combined with its arguments and a source read. Generated call sequences (calls of
+//! colliding and non-colliding functions with equal and different arguments, interleaved with
+//! source writes) run on a fresh database each; oracle: every call returns its own function's
+//! value, computed by the harness from the generator's table without any memoization.
+//!
+//! Part 2 (this repository): every `.rs` file under /repo/crates is parsed with `syn`; for every
+//! function carrying `#[memo]` the macro's key input (`sig.to_token_stream().to_string()`) is
+//! recomputed, and functions of one crate's `src/` that share a key are reported. That is an
+//! enumeration, not a sample.
+use std::collections::BTreeMap;
+use std::path::{Path, PathBuf};
+
+use pico::Database;
+use proptest::prelude::*;
+use quote::ToTokens;
+use serde_json::{Value, json};
+use vcore::{Args, Fail, Report};
+
+mod generated;
+use generated::{Base, Db, ENTRIES, Entry, Slot};
+
+const M1: i64 = 1_000_003;
+const M2: i64 = 7919;
+
+#[derive(Clone, Debug)]
+enum Step {
+    /// (entry index within ENTRIES, a, b)
+    Call(usize, u8, u8),
+    SetBase(i64),
+    SetSlot(u8, i64),
 }
+
+fn expected(e: &Entry, a: u8, b: u8, base: i64, slots: &[i64; 3]) -> i64 {
+    let (a, b) = (a as i64, b as i64);
+    e.konst
+        + match e.shape {
+            0 => base,
+            1 | 2 | 4 | 5 => a * M1 + base,
+            3 => a * M1 + b * M2 + base,
+            _ => slots[a as usize] * 31 + base,
+        }
+}
+
+/// The collision class of an entry: functions with the same name and shape have textually
+/// identical signatures (cross-checked against syn's rendering in `self_check`).
+fn class_of(e: &Entry) -> (u32, &'static str, u8) {
+    (e.prog, e.name, e.shape)
+}
+
+fn run_steps(steps: &[Step]) -> Result<(), Fail> {
+    let mut db = Db::default();
+    let mut base = 0i64;
+    let mut slots = [0i64; 3];
+    for k in 0..3u8 {
+        db.set(Slot { key: k, v: 0 });
+    }
+    // which function last ran for a (class, args): tells what a wrong value came from
+    for (i, s) in steps.iter().enumerate() {
+        match *s {
+            Step::SetBase(v) => {
+                base = v;
+                db.set(Base { v });
+            }
+            Step::SetSlot(k, v) => {
+                slots[k as usize] = v;
+                db.set(Slot { key: k, v });
+            }
+            Step::Call(idx, a, b) => {
+                let e = &ENTRIES[idx];
+                let want = expected(e, a, b, base, &slots);
+                let got = match vcore::catch_panic(|| (e.call)(&db, a, b)) {
+                    Ok(v) => v,
+                    Err(p) => {
+                        return Err(Fail::new(
+                            "panic-in-memoized-call",
+                            format!("step {i}: {}::{} (shape {}) panicked: {p}", e.module, e.name, e.shape),
+                        ));
+                    }
+                };
+                if got != want {
+                    // whose value is it?
+                    let owner = ENTRIES.iter().find(|o| o.prog == e.prog && expected(o, a, b, base, &slots) == got);
+                    let stale_owner = ENTRIES.iter().find(|o| o.prog == e.prog && (got - o.konst).abs() < 500_000_000);
+                    let (sig, who) = match (owner, stale_owner) {
+                        (Some(o), _) if class_of(o) == class_of(e) => {
+                            ("shared-cache:identical-signature-in-another-module", format!("the value of {}::{}", o.module, o.name))
+                        }
+                        (Some(o), _) => ("shared-cache:different-signature", format!("the value of {}::{}", o.module, o.name)),
+                        (None, Some(o)) if std::ptr::eq(o, e) => ("stale-own-value", "an outdated value of the same function".to_string()),
+                        (None, Some(o)) => ("shared-cache:stale-other", format!("an outdated value of {}::{}", o.module, o.name)),
+                        _ => ("wrong-value", "no function's value".to_string()),
+                    };
+                    return Err(Fail::new(
+                        sig,
+                        format!(
+                            "step {i}: {}::{}(a={a}, b={b}) [shape {}] returned {got}, its own value is {want}; that is {who}",
+                            e.module, e.name, e.shape
+                        ),
+                    ));
+                }
+            }
+        }
+    }
+    Ok(())
+}
+
+fn steps_json(steps: &[Step]) -> Value {
+    let v: Vec<Value> = steps
+        .iter()
+        .map(|s| match *s {
+            Step::Call(i, a, b) => json!(["call", ENTRIES[i].module, ENTRIES[i].name, a, b]),
+            Step::SetBase(v) => json!(["base", v]),
+            Step::SetSlot(k, v) => json!(["slot", k, v]),
+        })
+        .collect();
+    json!({"generated_seed": generated::SEED, "steps": v})
+}
+
+fn steps_from_json(v: &Value) -> Option<Vec<Step>> {
+    if v["generated_seed"].as_u64() != Some(generated::SEED) {
+        // the program is a function of the seed: the dispatcher regenerates it from --seed
+        println!("NOTE: replay was recorded for generated seed {}, the built program has seed {}; functions are matched by module and name", v["generated_seed"], generated::SEED);
+    }
+    let mut out = vec![];
+    for s in v["steps"].as_array()? {
+        let a = s.as_array()?;
+        match a.first()?.as_str()? {
+            "call" => {
+                let (m, n) = (a.get(1)?.as_str()?, a.get(2)?.as_str()?);
+                let idx = ENTRIES.iter().position(|e| e.module == m && e.name == n)?;
+                out.push(Step::Call(idx, a.get(3)?.as_u64()? as u8, a.get(4)?.as_u64()? as u8));
+            }
+            "base" => out.push(Step::SetBase(a.get(1)?.as_i64()?)),
+            "slot" => out.push(Step::SetSlot(a.get(1)?.as_u64()? as u8, a.get(2)?.as_i64()?)),
+            _ => return None,
+        }
+    }
+    Some(out)
+}
+
+// ------------------------------------------------------------------------------------------------
+// static scan with syn
+// ------------------------------------------------------------------------------------------------
+
+#[derive(Debug, Clone)]
+struct MemoFn {
+    file: String,
+    module: String,
+    name: String,
+    key: String,
+}
+
+struct Scan<'a> {
+    file: &'a str,
+    modules: Vec<String>,
+    out: &'a mut Vec<MemoFn>,
+}
+
+fn is_memo_attr(a: &syn::Attribute) -> bool {
+    a.path().segments.last().map(|s| s.ident == "memo").unwrap_or(false)
+}
+
+impl<'ast, 'a> syn::visit::Visit<'ast> for Scan<'a> {
+    fn visit_item_mod(&mut self, m: &'ast syn::ItemMod) {
+        self.modules.push(m.ident.to_string());
+        syn::visit::visit_item_mod(self, m);
+        self.modules.pop();
+    }
+    fn visit_item_fn(&mut self, f: &'ast syn::ItemFn) {
+        if f.attrs.iter().any(is_memo_attr) {
+            self.out.push(MemoFn {
+                file: self.file.to_string(),
+                module: self.modules.join("::"),
+                name: f.sig.ident.to_string(),
+                // exactly what pico_macros::memo_macro::hash feeds into the hasher
+                key: f.sig.to_token_stream().to_string(),
+            });
+        }
+        syn::visit::visit_item_fn(self, f);
+    }
+}
+
+fn rs_files(dir: &Path, out: &mut Vec<PathBuf>) {
+    let Ok(rd) = std::fs::read_dir(dir) else { return };
+    let mut entries: Vec<_> = rd.flatten().map(|e| e.path()).collect();
+    entries.sort();
+    for p in entries {
+        if p.is_dir() {
+            if p.file_name().map(|n| n == "target" || n == "node_modules").unwrap_or(false) {
+                continue;
+            }
+            rs_files(&p, out);
+        } else if p.extension().map(|e| e == "rs").unwrap_or(false) {
+            out.push(p);
+        }
+    }
+}
+
+fn scan_file(path: &Path, label: &str, out: &mut Vec<MemoFn>) -> Result<(), String> {
+    let text = std::fs::read_to_string(path).map_err(|e| e.to_string())?;
+    let file = syn::parse_file(&text).map_err(|e| format!("{}: {e}", path.display()))?;
+    let mut scan = Scan { file: label, modules: vec![], out };
+    syn::visit::Visit::visit_file(&mut scan, &file);
+    Ok(())
+}
+
+/// Scan /repo/crates. Returns (all memo fns, duplicate groups inside one crate's src/).
+fn scan_repo(report: &Report) -> Vec<(String, Vec<MemoFn>)> {
+    let root = vcore::repo_root().join("crates");
+    let mut files = vec![];
+    rs_files(&root, &mut files);
+    let mut fns = vec![];
+    let mut unparsed = 0u64;
+    for f in &files {
+        let label = f.strip_prefix(vcore::repo_root()).unwrap_or(f).display().to_string();
+        if scan_file(f, &label, &mut fns).is_err() {
+            unparsed += 1;
+        }
+    }
+    report.label_n("scan:rs-files", files.len() as u64);
+    report.label_n("scan:rs-files-not-parsed-by-syn", unparsed);
+    report.label_n("scan:memo-functions", fns.len() as u64);
+    // group by (crate, key) for library code: one crate's functions can meet in one database.
+    // Functions under tests/ live in separate test programs with their own databases; duplicates
+    // there are counted as a label only.
+    let mut groups: BTreeMap<(String, bool, String), Vec<MemoFn>> = BTreeMap::new();
+    for f in &fns {
+        let parts: Vec<&str> = f.file.split('/').collect();
+        let krate = parts.get(1).copied().unwrap_or("").to_string();
+        let is_src = parts.get(2).copied() == Some("src");
+        groups.entry((krate, is_src, f.key.clone())).or_default().push(f.clone());
+    }
+    // the same key in different crates can also meet in one database (the compiler's crates
+    // share IsographDatabase): group library code across crates too
+    let mut cross: BTreeMap<String, Vec<MemoFn>> = BTreeMap::new();
+    for f in &fns {
+        let parts: Vec<&str> = f.file.split('/').collect();
+        if parts.get(2).copied() == Some("src") && parts.get(1).copied() != Some("pico") {
+            cross.entry(f.key.clone()).or_default().push(f.clone());
+        }
+    }
+    let mut dups = vec![];
+    for (key, v) in cross {
+        if v.len() > 1 {
+            dups.push((key, v));
+        }
+    }
+    let test_dups = groups.iter().filter(|((_, is_src, _), v)| !*is_src && v.len() > 1).count();
+    report.label_n("scan:duplicate-keys-in-test-programs(separate databases)", test_dups as u64);
+    report.extra(
+        "repo_scan",
+        json!({"rs_files": files.len(), "memo_functions": fns.len(), "duplicate_keys_in_library_code": dups.len(), "not_parsed": unparsed}),
+    );
+    dups
+}
+
+/// The generator's collision classes must be exactly syn's: same (name, shape) <=> same key.
+fn self_check(report: &Report) -> BTreeMap<usize, usize> {
+    let path = vcore::verif_root().join("harness/memo_programs/src/generated.rs");
+    let mut fns = vec![];
+    if let Err(e) = scan_file(&path, "generated.rs", &mut fns) {
+        vcore::inconclusive(&format!("generated.rs does not parse: {e}"));
+    }
+    if fns.len() != ENTRIES.len() {
+        vcore::inconclusive(&format!("generated.rs on disk has {} memo functions, the built program {}", fns.len(), ENTRIES.len()));
+    }
+    let mut by_key: BTreeMap<(String, String), Vec<usize>> = BTreeMap::new();
+    let mut by_class: BTreeMap<(u32, &str, u8), Vec<usize>> = BTreeMap::new();
+    for (i, (f, e)) in fns.iter().zip(ENTRIES.iter()).enumerate() {
+        if f.module != e.module || f.name != e.name {
+            vcore::inconclusive("generated.rs on disk is not the program that was built");
+        }
+        let prog = e.module.split("::").next().unwrap_or("").to_string();
+        by_key.entry((prog, f.key.clone())).or_default().push(i);
+        by_class.entry(class_of(e)).or_default().push(i);
+    }
+    let a: Vec<&Vec<usize>> = by_key.values().collect();
+    let mut b: Vec<&Vec<usize>> = by_class.values().collect();
+    let mut a2 = a.clone();
+    a2.sort();
+    b.sort();
+    if a2 != b {
+        vcore::inconclusive("the generator's collision classes differ from the signature token streams syn sees");
+    }
+    let mut class_size = BTreeMap::new();
+    for v in by_class.values() {
+        for i in v {
+            class_size.insert(*i, v.len());
+        }
+    }
+    report.label_n("generated:memo-functions", ENTRIES.len() as u64);
+    report.label_n("generated:signature-classes-with->=2-functions", by_class.values().filter(|v| v.len() > 1).count() as u64);
+    class_size
+}
+
+// ------------------------------------------------------------------------------------------------
+
+fn steps_strategy(colliding: Vec<Vec<usize>>, idx: Vec<usize>) -> impl Strategy<Value = Vec<Step>> {
+    let n = idx.len();
+    // a call step either picks any function, or two functions of one collision class called with
+    // the same arguments back to back (the collision case), or the same function twice
+    let any_call = (0..n, 0..3u8, 0..3u8).prop_map(move |(i, a, b)| vec![Step::Call(idx[i], a, b)]);
+    let classes = colliding.clone();
+    let pair = (0..colliding.len().max(1), any::<u16>(), any::<u16>(), 0..3u8, 0..3u8).prop_map(move |(c, x, y, a, b)| {
+        if classes.is_empty() {
+            return vec![];
+        }
+        let cl = &classes[c % classes.len()];
+        let i = cl[vcore::pick_index(x, cl.len())];
+        let j = cl[vcore::pick_index(y, cl.len())];
+        vec![Step::Call(i, a, b), Step::Call(j, a, b)]
+    });
+    let write = prop_oneof![(0..4i64).prop_map(Step::SetBase), (0..3u8, 0..4i64).prop_map(|(k, v)| Step::SetSlot(k, v))].prop_map(|s| vec![s]);
+    prop::collection::vec(prop_oneof![3 => any_call, 4 => pair, 2 => write], 1..=16).prop_map(|v| v.into_iter().flatten().collect())
+}
+
+fn main() {
+    let args = vcore::parse_args();
+    if args.property != "C04" {
+        vcore::inconclusive(&format!("memo_programs: unknown property {}", args.property));
+    }
+    run(&args);
+}
+
+fn run(args: &Args) {
+    let report = Report::new(
+        args,
+        "exploration",
+        "call sequences over generated programs (30-60 modules x 2-4 #[memo] functions, signatures from a grammar of 5 names x 7 \
+         parameter/return shapes) on a fresh database each; non-trivial = the sequence calls two DIFFERENT functions with textually \
+         identical signatures (different modules) with the same arguments; distinct by sequence. Plus an exhaustive syn scan of \
+         every #[memo] signature under /repo/crates for duplicate macro keys",
+    );
+    report.engine("pbt");
+    report.engine("static-scan(syn)");
+    report.assumption("syn's rendering of a signature differs from rustc's proc_macro rendering at most in spacing, identically for all functions, so equal keys are equal in both");
+    if generated::SEED != args.seed && args.replay.is_none() {
+        vcore::inconclusive(&format!(
+            "generated.rs was produced for seed {} but the check runs with seed {} (run through ./check, which regenerates it)",
+            generated::SEED,
+            args.seed
+        ));
+    }
+
+    let want_programs = args.tier.pick(1u32, 8u32);
+    if generated::PROGRAMS != want_programs && args.replay.is_none() {
+        vcore::inconclusive(&format!("generated.rs holds {} programs, tier {} wants {want_programs} (run through ./check)", generated::PROGRAMS, args.tier.as_str()));
+    }
+
+    if let Some(path) = &args.replay {
+        let doc = vcore::read_replay(path);
+        if doc["input"]["repo_scan"].is_object() {
+            // a static-scan finding: re-scan
+            let dups = scan_repo(&report);
+            report.case(Some("replay-marker-1"), &[]);
+            report.case(Some("replay-marker-2"), &[]);
+            if let Some((key, v)) = dups.first().filter(|_| identical_signatures_collide()) {
+                let f = scan_fail(key, v);
+                report.violation("replay", &f, doc["input"].clone());
+            }
+            report.finish();
+        }
+        let Some(steps) = steps_from_json(&doc["input"]) else { vcore::inconclusive("replay input does not match the built program (pass the --seed it was recorded with)") };
+        report.case(Some("replay-marker-1"), &[]);
+        report.case(Some("replay-marker-2"), &[]);
+        if let Err(f) = run_steps(&steps) {
+            report.violation("replay", &f, doc["input"].clone());
+        }
+        report.finish();
+    }
+
+    let class_size = self_check(&report);
+
+    // Part 2 first (cheap, exhaustive). Identical signature token streams in library code are a
+    // collision exactly when this tree's macro keys functions by their signature alone, which is
+    // decided by a probe on the generated program (no assumption on how the macro builds its key).
+    let dups = scan_repo(&report);
+    let collide = identical_signatures_collide();
+    report.extra("identical_signatures_share_a_key_in_this_tree", json!(collide));
+    if !collide {
+        report.label_n("scan:identical-signatures-in-library-code(distinct keys in this tree)", dups.len() as u64);
+    }
+    for (key, v) in dups.iter().filter(|_| collide) {
+        let fail = scan_fail(key, v);
+        match report.tolerate(Err(fail)) {
+            Ok(()) => {}
+            Err(fail) => {
+                report.violation("repo-scan", &fail, json!({"repo_scan": {"key": key, "functions": v.iter().map(|f| format!("{}::{}::{}", f.file, f.module, f.name)).collect::<Vec<_>>()}}));
+            }
+        }
+    }
+
+    report.run_regressions(|input| match steps_from_json(input) {
+        Some(steps) => run_steps(&steps),
+        None => Ok(()), // recorded for another generated program
+    });
+
+    // Part 1
+    let cases = args.tier.pick(4000u32, 40_000u32);
+    for prog in 0..generated::PROGRAMS {
+        let idx: Vec<usize> = (0..ENTRIES.len()).filter(|i| ENTRIES[*i].prog == prog).collect();
+        let mut classes: BTreeMap<(u32, &str, u8), Vec<usize>> = BTreeMap::new();
+        for &i in &idx {
+            classes.entry(class_of(&ENTRIES[i])).or_default().push(i);
+        }
+        let colliding: Vec<Vec<usize>> = classes.values().filter(|v| v.len() > 1).cloned().collect();
+        let strat = steps_strategy(colliding, idx);
+        let found = vcore::run_prop(&report, &format!("program-{prog}"), cases / generated::PROGRAMS.max(1), strat, |steps: &Vec<Step>| {
+            // non-trivial: two different functions of one class with the same arguments
+            let mut seen: BTreeMap<((u32, &str, u8), u8, u8), usize> = BTreeMap::new();
+            let mut nontrivial = false;
+            for s in steps {
+                if let Step::Call(i, a, b) = *s {
+                    let e = &ENTRIES[i];
+                    let (a2, b2) = match e.shape {
+                        0 => (0, 0),
+                        3 => (a, b),
+                        _ => (a, 0),
+                    };
+                    if let Some(j) = seen.insert((class_of(e), a2, b2), i) {
+                        if j != i {
+                            nontrivial = true;
+                        }
+                    }
+                }
+            }
+            let has_write = steps.iter().any(|s| !matches!(s, Step::Call(..)));
+            let big = steps.iter().any(|s| matches!(s, Step::Call(i, ..) if class_size.get(i).copied().unwrap_or(1) >= 3));
+            let mut labels = vec![];
+            if nontrivial {
+                labels.push("same-signature-pair-same-args");
+            }
+            if has_write {
+                labels.push("with-source-writes");
+            }
+            if big {
+                labels.push("class-of->=3-functions");
+            }
+            let text = format!("{steps:?}");
+            report.case(if nontrivial { Some(text.as_str()) } else { None }, &labels);
+            report.sample(if nontrivial { "non-trivial" } else { "trivial" }, 2, || steps_json(steps));
+            run_steps(steps)
+        });
+        if let Some((steps, fail)) = found {
+            report.violation(&format!("program-{prog}"), &fail, steps_json(&steps));
+            break;
+        }
+        report.unfreeze();
+    }
+    report.finish();
+}
+
+/// Probe: do two functions with textually identical signatures (different modules) share a
+/// cache entry in this tree? Calls every pair of one collision class with equal arguments.
+fn identical_signatures_collide() -> bool {
+    let mut classes: BTreeMap<(u32, &str, u8), Vec<usize>> = BTreeMap::new();
+    for (i, e) in ENTRIES.iter().enumerate() {
+        classes.entry(class_of(e)).or_default().push(i);
+    }
+    for v in classes.values().filter(|v| v.len() > 1) {
+        let steps = vec![Step::Call(v[0], 1, 1), Step::Call(v[1], 1, 1)];
+        if let Err(f) = run_steps(&steps) {
+            if f.signature.starts_with("shared-cache:identical-signature") {
+                return true;
+            }
+        }
+    }
+    false
+}
+
+fn scan_fail(key: &str, v: &[MemoFn]) -> Fail {
+    Fail::new(
+        "repo:duplicate-memo-key",
+        format!(
+            "{} #[memo] functions of the repository's library code have the identical signature token stream `{key}` and therefore the same derived-node key: {}",
+            v.len(),
+            v.iter().map(|f| format!("{} ({}::{})", f.file, f.module, f.name)).collect::<Vec<_>>().join(", ")
+        ),
+    )
+}
+
+#[allow(dead_code)]
+fn unused(_: Base) {}
